@@ -1,5 +1,5 @@
 """C04 - text-to-number/boolean conversion is exact or rejected (structural)."""
-from .. import sym, parsermodel as pm, failpaths as fp, report
+from .. import cfg as _cfg, sym, parsermodel as pm, failpaths as fp, report
 
 EXPLANATION = (
     'Static analysis of the conversion call sites (found by callee: strtol, strtod, cfg_parse_boolean) in the LLVM IR '
@@ -208,6 +208,11 @@ def boolean_table(c, chk, setopt_paths):
             table.setdefault(matched[0], set()).add((p.retval[1] if sym.is_const(p.retval) else None, matched[1]))
         elif not any(sym.render(cn) in ('(s ne 0)',) and not t for cn, t, _ in p.assume) and not any(pm.describe_cond(cn) == 's' and not t for cn, t, _ in p.assume):
             fallthrough = p.retval
+    if not table:
+        # no literal comparisons: a lookup in a constant table?
+        table, fallthrough2 = table_lookup(c, fn, ex)
+        if fallthrough2 is not None:
+            fallthrough = fallthrough2
     bad = []
     for wd, val in BOOL_REF.items():
         got = table.get(wd)
@@ -246,3 +251,66 @@ def boolean_table(c, chk, setopt_paths):
         chk.ok('R4.7', 'cfg_setopt boolean arm', '%d paths: CFG_FAIL -> cfg_error + NULL; otherwise the converted value is stored' % n)
     else:
         chk.fail('R4.7', 'boolean-arm', c.where(c.need('cfg_setopt')), 'cfg_setopt() does not turn an unrecognised boolean word into a reported failure / stores something else than the converted value')
+
+
+def table_lookup(c, fn, ex):
+    """cfg_parse_boolean() as a loop over a constant table {word, value}: ({word: {(value, comparison)}}, fall-through value).
+    One loop iteration is explored with a symbolic index; the iteration must compare the argument itself with the word
+    of entry i and return the value of the same entry; the loop must visit every entry (0 .. length-1, step 1)."""
+    import re
+    from .. import loops as _loops
+    mod = fn.module
+    out = {}
+    for h in sorted(_cfg.natural_loops(fn)):
+        hit = None
+        full = False
+        for p in _loops.iterate(ex, fn, h):
+            if p.end == 'ret' and hit is None:
+                for cn, t, _ in p.assume:
+                    if cn[0] != 'icmp':
+                        continue
+                    for side in (cn[2], cn[3]):
+                        if side[0] == 'call' and side[1] in ('strcasecmp', 'strcmp') and ((cn[1] == 'eq') == t):
+                            ev = next(e for e in p.events if e.kind == 'call' and e.res == side)
+                            if ('p', 's') not in ev.args:
+                                continue          # the comparison must look at the whole argument, not at a copy
+                            w = next((a for a in ev.args if a[0] == 'ld' and a[1][0] == 'fld' and a[1][1][0] == 'idx' and a[1][1][1][0] == 'g'), None)
+                            rv = p.retval
+                            while rv is not None and rv[0] == 'bin' and rv[1] in ('sext', 'zext', 'trunc'):
+                                rv = rv[2]
+                            if w is not None and rv is not None and rv[0] == 'ld' and rv[1][0] == 'fld' and rv[1][1] == w[1][1]:
+                                hit = (w[1][1][1][1], w[1][3], rv[1][3], ev.name, w[1][1][2])
+            elif p.end == 'stop' and hit is not None:
+                idx = hit[4]
+                nm = idx[1] if idx[0] == 'p' else None
+                # the index advances by one and the loop is left only when it reaches the table length
+                if nm and p.next.get(nm) == ('bin', 'add', idx, ('c', 1)):
+                    full = True
+        if hit is None or not full:
+            continue
+        gname, wf, vf, cmpname, idx = hit
+        g = mod.globals.get(gname)
+        if g is None or not g.get('const') or not g.get('init'):
+            continue
+        mlen = re.match(r'^\[(\d+) x ', g['ty'] or '')
+        entries = re.findall(r'\{\s*i8\*\s+getelementptr[^@]*(@[\w.]+)[^}]*?,\s*i\d+\s+(-?\d+)\s*\}', g['init'])
+        if not mlen or len(entries) != int(mlen.group(1)):
+            continue
+        # loop bound == number of entries
+        bound_ok = any(ins.op == 'icmp' and ins.ops[1].kind == 'int' and ins.ops[1].ival == len(entries) for ins in fn.instrs())
+        if not bound_ok:
+            continue
+        for sname, val in entries:
+            wd = mod.strings.get(sname)
+            if wd is not None:
+                out.setdefault(wd, set()).add((int(val), cmpname))
+    # the value returned when the loop is left without a match
+    fall = None
+    for h in sorted(_cfg.natural_loops(fn)):
+        for p in _loops.iterate(ex, fn, h):
+            if p.end == 'ret' and sym.is_const(p.retval) and not any(
+                    cn[0] == 'icmp' and any(sd[0] == 'call' and sd[1] in ('strcasecmp', 'strcmp') for sd in (cn[2], cn[3])) and ((cn[1] == 'eq') == t)
+                    for cn, t, _ in p.assume):
+                if fall is None or p.retval != ('c', -1):
+                    fall = p.retval
+    return out, fall
